@@ -1,68 +1,157 @@
 /-
   Record: read-only semantics of the two description dataclasses of dev.py
-  (`DDeviceChannelData`, `DDeviceData`).  A record is a finite map from attribute names to
-  values plus nothing else; `__setattr__` consults the `_initdone` attribute and the generated
-  allow-list.  Construction replays the dataclass-generated `__init__` and `__post_init__`
-  as the sequences of assignments the translator extracted (`Gen.Record.*Order`).
-  Attribute values are abstracted to `Int` (booleans 0/1; the harness maps other values).
+  (`DDeviceChannelData`, `DDeviceData`).  A record is its instance `__dict__`: an ordered finite
+  map from attribute names to values, and nothing else; `__setattr__` consults the `_initdone`
+  attribute and the generated allow-list.  Construction replays the dataclass-generated
+  `__init__` and `__post_init__` as the sequences of assignments the translator extracted
+  (`Gen.Record.*Order`).
+
+  Attribute values: `Val` keeps apart exactly the kinds of Python object the harness assigns —
+  `None`, `bool`, `int` (unbounded), `str`, and "any other object" (`other`: floats, bytes,
+  containers, instances with hostile `__eq__`/`__hash__`/`__bool__`, …, identified by a tag; the
+  harness compares those by identity).  The real `__setattr__` never inspects the value (no
+  comparison, no hash, no truth test, no type test): `setattr` below does not either, which is the
+  theorem `setattr_ignores_value`.  The only place where a value is *looked at* is the truth test
+  `if self._initdone:` (`Val.truthy`).
+
+  Attribute names are exact `str` objects (what an assignment statement `rec.f = v` and
+  `setattr(rec, "f", v)` pass).  A `str` SUBCLASS with a hostile `__eq__` passed as the name to
+  `setattr()` defeats `name not in ["div", "en"]`; like `rec.__dict__[…] = …`,
+  `object.__setattr__` and `del rec._initdone` (there is no `__delattr__`: deleting the marker
+  unseals the record) it is not "assigning to a field" and is outside C19.
+
+  Histories: an application holds ONE record object over time and tries assignment after
+  assignment (the library itself assigns `en`/`div` before and between); a rejected assignment
+  raises and the application goes on with the same object.  `Step`/`runHistory` model that, plus
+  `copy` steps (`copy.copy`, `copy.deepcopy`, a pickle round trip: the copy has the same class
+  and an equal `__dict__`; the correspondence check compares that on the real objects).
 -/
 import NxsModel.Gen.Record
 import NxsModel.Info
 namespace Nxs
 namespace Record
 
+/-- a Python value, as far as the description records are concerned -/
+inductive Val where
+  | none
+  | bool (b : Bool)
+  | int (i : Int)
+  | str (s : String)
+  /-- any other object; `truthy` is the result of `bool(obj)`, `tag` its identity -/
+  | other (truthy : Bool) (tag : Nat)
+  deriving DecidableEq, Repr, Inhabited
+
+/-- `bool(v)` -/
+def Val.truthy : Val → Bool
+  | .none => false
+  | .bool b => b
+  | .int i => i ≠ 0
+  | .str s => s ≠ ""
+  | .other t _ => t
+
+/-- numerals and `Int`s are `int` objects (keeps `fun _ => 7` / an `Int` argument usable) -/
+instance : OfNat Val n := ⟨.int n⟩
+instance : Coe Int Val := ⟨.int⟩
+
+/-- legacy rendering (booleans as 0/1, as the first C19 driver printed them); the C19 driver
+    proper uses `Driver.valTok`, which keeps `True` and `1` apart -/
+instance : ToString Val where
+  toString
+    | .none => "None"
+    | .bool b => if b then "1" else "0"
+    | .int i => toString i
+    | .str s => s
+    | .other _ t => s!"obj{t}"
+
 /-- the instance `__dict__` -/
-abbrev Dict := List (String × Int)
+abbrev Dict := List (String × Val)
 
-def Dict.get? (d : Dict) (k : String) : Option Int := (d.find? (·.1 = k)).map (·.2)
+def Dict.get? (d : Dict) (k : String) : Option Val := (d.find? (·.1 = k)).map (·.2)
 
-def Dict.set (d : Dict) (k : String) (v : Int) : Dict :=
+def Dict.set (d : Dict) (k : String) (v : Val) : Dict :=
   if d.any (·.1 = k) then d.map (fun e => if e.1 = k then (k, v) else e) else d ++ [(k, v)]
 
-/-- `self._initdone` : instance attribute, else the class default `False` -/
-def initDone (d : Dict) : Bool := (d.get? "_initdone").getD 0 ≠ 0
+/-- the attribute names, in `__dict__` order -/
+def Dict.keys (d : Dict) : List String := d.map (·.1)
+
+/-- `self._initdone` under `if`: instance attribute, else the class default `False` -/
+def initDone (d : Dict) : Bool := ((d.get? "_initdone").getD (.bool false)).truthy
 
 /-- `__setattr__(name, value)` with allow-list `allow` -/
-def setattr (allow : List String) (d : Dict) (name : String) (v : Int) : Except Err Dict :=
+def setattr (allow : List String) (d : Dict) (name : String) (v : Val) : Except Err Dict :=
   if initDone d && !(allow.contains name) then .error .typeError
   else .ok (d.set name v)
 
-/-- run a sequence of assignments `self.<name> = <value>` -/
-def assignAll (allow : List String) : Dict → List (String × Int) → Except Err Dict
+/-- run a sequence of assignments `self.<name> = <value>` (inside `__init__`/`__post_init__`:
+    the first one that raises ends construction) -/
+def assignAll (allow : List String) : Dict → List (String × Val) → Except Err Dict
   | d, [] => .ok d
   | d, (k, v) :: r => (setattr allow d k v).bind fun d' => assignAll allow d' r
 
-def b2i (b : Bool) : Int := if b then 1 else 0
-
 /-- value assigned to each attribute by `DDeviceChannelData.__post_init__` -/
-def chanDerived (ty : Nat) (name : String) : Int :=
-  if name = "dtype" then Info.dtypeOf ty
-  else if name = "critical" then b2i (Info.criticalOf ty)
-  else if name = "type_res" then Info.typeResOf ty
-  else if name = "is_valid" then b2i (Info.isValidOf ty)
-  else if name = "is_numerical" then b2i (Info.isNumericalOf ty)
-  else if name = "_initdone" then 1
-  else 0
+def chanDerived (ty : Nat) (name : String) : Val :=
+  if name = "dtype" then .int (Info.dtypeOf ty)
+  else if name = "critical" then .bool (Info.criticalOf ty)
+  else if name = "type_res" then .int (Info.typeResOf ty)
+  else if name = "is_valid" then .bool (Info.isValidOf ty)
+  else if name = "is_numerical" then .bool (Info.isNumericalOf ty)
+  else if name = "_initdone" then .bool true
+  else .none
 
 /-- `DDeviceChannelData(chan, _type, vdim, name, en, div, mlen)`; `args` gives the value of each
-    init field (name abstracted to an integer tag), `_initdone` default False -/
-def mkChan (args : String → Int) (ty : Nat) : Except Err Dict :=
+    init field, `ty` the type byte (an `int`); `_initdone` default False -/
+def mkChan (args : String → Val) (ty : Nat) : Except Err Dict :=
   (assignAll Gen.Record.chanAllow []
       (Gen.Record.chanInitOrder.map fun k =>
-        (k, if k = "_initdone" then 0 else if k = "_type" then (ty : Int) else args k))).bind fun d =>
+        (k, if k = "_initdone" then .bool false else if k = "_type" then .int (ty : Int) else args k))).bind fun d =>
     assignAll Gen.Record.chanAllow d (Gen.Record.chanPostOrder.map fun k => (k, chanDerived ty k))
 
-def devDerived (flags : Nat) (name : String) : Int :=
-  if name = "div_supported" then b2i (Info.divSupported flags)
-  else if name = "ack_supported" then b2i (Info.ackSupported flags)
-  else if name = "_initdone" then 1
-  else 0
+def devDerived (flags : Nat) (name : String) : Val :=
+  if name = "div_supported" then .bool (Info.divSupported flags)
+  else if name = "ack_supported" then .bool (Info.ackSupported flags)
+  else if name = "_initdone" then .bool true
+  else .none
 
-def mkDev (args : String → Int) (flags : Nat) : Except Err Dict :=
+/-- `DDeviceData(chmax, flags, rxpadding)` -/
+def mkDev (args : String → Val) (flags : Nat) : Except Err Dict :=
   (assignAll Gen.Record.devAllow []
       (Gen.Record.devInitOrder.map fun k =>
-        (k, if k = "_initdone" then 0 else if k = "flags" then (flags : Int) else args k))).bind fun d =>
+        (k, if k = "_initdone" then .bool false else if k = "flags" then .int (flags : Int) else args k))).bind fun d =>
     assignAll Gen.Record.devAllow d (Gen.Record.devPostOrder.map fun k => (k, devDerived flags k))
+
+/-! ### histories on one record object -/
+
+/-- one thing done with a record after construction -/
+inductive Step where
+  /-- `rec.<name> = <v>` (by the application or, for en/div, by the library) -/
+  | assign (name : String) (v : Val)
+  /-- go on with `copy.copy(rec)` / `copy.deepcopy(rec)` / `pickle.loads(pickle.dumps(rec))` -/
+  | copy
+  deriving DecidableEq, Repr
+
+/-- the record after one step, and whether the step raised (`false` = TypeError); a rejected
+    assignment leaves the object as it was -/
+def Step.run (allow : List String) (d : Dict) : Step → Dict × Bool
+  | .assign k v =>
+    match setattr allow d k v with
+    | .ok d' => (d', true)
+    | .error _ => (d, false)
+  | .copy => (d, true)
+
+/-- the record after a whole history -/
+def runHistory (allow : List String) (d : Dict) (h : List Step) : Dict :=
+  h.foldl (fun d s => (s.run allow d).1) d
+
+/-- per step: did it go through, and the record afterwards -/
+def runTrace (allow : List String) : Dict → List Step → List (Bool × Dict)
+  | _, [] => []
+  | d, s :: r => let x := s.run allow d; (x.2, x.1) :: runTrace allow x.1 r
+
+/-- the last value a history assigned to `k`, if any -/
+def lastAssigned (k : String) : List Step → Option Val
+  | [] => .none
+  | .assign k' v :: r => (lastAssigned k r).or (if k' = k then some v else .none)
+  | .copy :: r => lastAssigned k r
 
 end Record
 end Nxs
